@@ -66,6 +66,19 @@ def strKind : SCls → PStr → SK
   | .doctype, s => .special .doctype s true
   | _, s => .text s
 
+/-- the markup `strKind`/`emitStr` presuppose for each string class (`PREFIX`, `SUFFIX`, written without substitution?):
+    text classes are bare substituted character data; the generated class table is checked against this in
+    Props/C05.lean (`class_table_live`) -/
+def assumedMarkup : SCls → ClsInfo
+  | .comment => ⟨[60, 33, 45, 45], [45, 45, 62], true⟩                                   -- <!-- -->
+  | .cdata => ⟨[60, 33, 91, 67, 68, 65, 84, 65, 91], [93, 93, 62], true⟩                 -- <![CDATA[ ]]>
+  | .pi => ⟨[60, 63], [62], true⟩                                                        -- <? >
+  | .xmlpi => ⟨[60, 63], [63, 62], true⟩                                                 -- <? ?>
+  | .declaration => ⟨[60, 63], [63, 62], true⟩                                           -- <? ?>
+  | .doctype => ⟨[60, 33, 68, 79, 67, 84, 89, 80, 69, 32], [62, 10], true⟩               -- <!DOCTYPE  >\n
+  | .preformatted => ⟨[], [], true⟩
+  | _ => ⟨[], [], false⟩
+
 def emitStr (c : SCls) (s : PStr) : List TEv :=
   match strKind c s with
   | .text s => if s.isEmpty then [] else [.data s]
@@ -81,6 +94,47 @@ def emitR (f : Fmt) : Node → List TEv
 def emitRL (f : Fmt) : List Node → List TEv
   | [] => []
   | n :: ns => emitR f n ++ emitRL f ns
+end
+
+/-! ### the rendered text as events, through a reader of character data and attribute values
+
+    `emitR` above carries the original strings. `emitRd` carries what a reader makes of the *written* strings:
+    `rd.text` = the tokenizer's treatment of tag-free character data with bs4's `handle_entityref`/`handle_charref`,
+    `rd.attr` = quote stripping + `html.unescape` of a written attribute value (both modelled and proved reversible
+    in C09 for `substitute_xml` and `substitute_html`); inside script/style (`CDATA_CONTENT_ELEMENTS`) the tokenizer
+    hands the text over as it stands. -/
+
+structure Reader where
+  text : PStr → PStr
+  attr : PStr → Option PStr
+
+def evAttrsRd (rd : Reader) (f : Fmt) (attrs : List (PStr × AVal)) : List (PStr × Option PStr) :=
+  (fmtAttributes f attrs).map fun kv =>
+    (kv.1, match kv.2 with
+           | .none => none
+           | v => some ((rd.attr (quoteAttr (substitute f none (valText v)))).getD []))
+
+/-- character data as `output_ready` writes it under a parent named `pname`, and as it is read back (`raw` = the
+    reader is inside a CDATA-content element) -/
+def readData (rd : Reader) (f : Fmt) (pname : Option PStr) (raw : Bool) (c : SCls) (s : PStr) : PStr :=
+  let w := if c = .preformatted then s else substitute f pname s
+  if raw then w else rd.text w
+
+def emitStrRd (rd : Reader) (f : Fmt) (pname : Option PStr) (raw : Bool) (c : SCls) (s : PStr) : List TEv :=
+  match strKind c s with
+  | .text s => if (readData rd f pname raw c s).isEmpty then [] else [.data (readData rd f pname raw c s)]
+  | .special c s nl => .special c s :: (if nl then [.data [10]] else [])
+
+mutual
+def emitRd (p : PCfg) (rd : Reader) (f : Fmt) (pname : Option PStr) (raw : Bool) : Node → List TEv
+  | .tag i kids =>
+    if kids.isEmpty && i.cbe then [.startend (fullName i) (evAttrsRd rd f i.attrs)]
+    else .start (fullName i) (evAttrsRd rd f i.attrs) ::
+      (emitRdL p rd f (some i.name) (p.cdataElems.contains (fullName i)) kids ++ [.stop (fullName i)])
+  | .str c s => emitStrRd rd f pname raw c s
+def emitRdL (p : PCfg) (rd : Reader) (f : Fmt) (pname : Option PStr) (raw : Bool) : List Node → List TEv
+  | [] => []
+  | n :: ns => emitRd p rd f pname raw n ++ emitRdL p rd f pname raw ns
 end
 
 /-! ### bs4's side of the parse -/
@@ -308,32 +362,128 @@ def isTextCls : SCls → Bool
   | .navigable | .stylesheet | .script | .template | .rubyText | .rubyParen => true
   | _ => false
 
-/-- a string node under a parent `inCdata` (= the re-parser reads the parent's content raw: script/style) -/
-def okStr (inCdata : Bool) (c : SCls) (s : PStr) : Bool :=
+/-- a string node outside script/style -/
+def okStr (c : SCls) (s : PStr) : Bool :=
   match c with
   | .preformatted => false                                  -- emitted raw without markup of its own
-  | .comment => !inCdata && !hasSub [45, 45] s && s.getLast? != some 45 && s.head? != some 62
+  | .comment => !hasSub [45, 45] s && s.getLast? != some 45 && s.head? != some 62
                   && !(([45, 62] : PStr).isPrefixOf s)      -- no `--`, no trailing `-`, not `>…`/`->…`
-  | .cdata => !inCdata && !s.contains 93 && !s.contains 62  -- no `]`, no `>`
-  | .pi | .xmlpi | .declaration | .doctype => !inCdata && !s.contains 62
-  | _ => !s.isEmpty && (!inCdata || !hasSub [60, 47] s)     -- text: non-empty; raw text has no `</`
+  | .cdata => !s.contains 93 && !s.contains 62              -- no `]`, no `>`
+  | .pi | .xmlpi | .declaration | .doctype => !s.contains 62
+  | _ => !s.isEmpty                                         -- text: non-empty
+
+/-- a child of script/style: a non-empty string of a text class -/
+def isTextNode : Node → Bool
+  | .str c s => isTextCls c && !s.isEmpty
+  | .tag _ _ => false
+
+/-- what is written between `<script>` and `</script>` -/
+def rawText : List Node → PStr
+  | [] => []
+  | .str _ s :: ns => s ++ rawText ns
+  | .tag _ _ :: ns => rawText ns
+
+/-- the content of an element the re-parser reads raw (script/style): text only, and no `</` in what is written -/
+def rawKidsOK (kids : List Node) : Bool := kids.all isTextNode && !hasSub [60, 47] (rawText kids)
 
 mutual
 /-- explicit, decidable: the trees whose rendering the tokenizer reads back as `emitR` -/
-def representable (p : PCfg) (f : Fmt) (inCdata : Bool) : Node → Bool
-  | .str c s => okStr inCdata c s
+def representable (p : PCfg) (f : Fmt) : Node → Bool
+  | .str c s => okStr c s
   | .tag i kids =>
-    let nm := fullName i
-    !inCdata                                                 -- no element inside script/style
-    && !i.hidden
-    && okTagName nm
-    && (!p.voidTags.contains nm || kids.isEmpty)             -- a void element has no children
-    && (f.cdataTags.contains i.name == p.cdataElems.contains nm)  -- writer and reader agree on raw content
+    !i.hidden
+    && okTagName (fullName i)
+    && (!p.voidTags.contains (fullName i) || kids.isEmpty)                    -- a void element has no children
+    && (f.cdataTags.contains i.name == p.cdataElems.contains (fullName i))    -- writer and reader agree on raw content
     && keysNodup (i.attrs.map (·.1)) && i.attrs.all (fun kv => okAttrName kv.1)
-    && representableL p f (p.cdataElems.contains nm) kids
-def representableL (p : PCfg) (f : Fmt) (inCdata : Bool) : List Node → Bool
+    && (if p.cdataElems.contains (fullName i) then rawKidsOK kids else representableL p f kids)
+def representableL (p : PCfg) (f : Fmt) : List Node → Bool
   | [] => true
-  | n :: ns => representable p f inCdata n && representableL p f inCdata ns
+  | n :: ns => representable p f n && representableL p f ns
 end
+
+/-! ### `DoctypeStable`: the forests on which a second round trip changes nothing -/
+
+/-- after this node, is the pending data of the second pass a doctype's newline? -/
+def nextAfter (after : Bool) : Node → Bool
+  | .tag _ _ => false
+  | .str c s =>
+    match strKind c s with
+    | .text _ => after
+    | .special _ _ nl => nl
+
+/-- a doctype must not stand in a preserve-whitespace context, and the text that follows one must be whitespace -/
+def headOK (p : PCfg) (ctx : Ctx) (after : Bool) : Node → Bool
+  | .tag _ _ => true
+  | .str c s =>
+    match strKind c s with
+    | .text t => !after || t.all (fun c => p.asciiSpaces.contains c)
+    | .special _ _ nl => !nl || !ctx.pres
+
+mutual
+/-- `DoctypeStable`: below this node no doctype is followed by visible text or stands inside `<pre>`/`<textarea>` -/
+def dstableN (p : PCfg) (ctx : Ctx) : Node → Bool
+  | .tag i ks => dstableL p (pushCtx p ctx (fullName i)) false ks
+  | .str _ _ => true
+def dstableL (p : PCfg) (ctx : Ctx) : Bool → List Node → Bool
+  | _, [] => true
+  | after, n :: ns => dstableN p ctx n && headOK p ctx after n && dstableL p ctx (nextAfter after n) ns
+end
+
+
+/-! ### how much the character data grows on a second round trip (0 iff `DoctypeStable`) -/
+
+/-- ASCII whitespace only -/
+def isSp (p : PCfg) (x : PStr) : Bool := x.all fun c => p.asciiSpaces.contains c
+
+/- total length of the character data of a forest -/
+mutual
+def tlenN : Node → Nat
+  | .tag _ ks => tlenL ks
+  | .str c s =>
+    match strKind c s with
+    | .text t => t.length
+    | .special _ _ _ => 0
+def tlenL : List Node → Nat
+  | [] => 0
+  | n :: ns => tlenN n + tlenL ns
+end
+
+
+/-- does the run of text after a doctype keep its newline visible: in a preserve-whitespace context always, else as
+    soon as a chunk is not whitespace -/
+def brkText (p : PCfg) (after brk : Bool) (t : PStr) : Bool := brk || (after && !isSp p t)
+
+def owed (after brk : Bool) : Nat := if after && brk then 1 else 0
+
+mutual
+/-- growth inside a node (its children are closed at its end tag) -/
+def growN (p : PCfg) (ctx : Ctx) : Node → Nat
+  | .tag i ks =>
+    let r := growL p (pushCtx p ctx (fullName i)) false false ks
+    r.1 + owed r.2.1 r.2.2
+  | .str _ _ => 0
+/-- growth over a run of siblings: (flushes that grew, pending doctype newline?, its run already visible?) -/
+def growL (p : PCfg) (ctx : Ctx) : Bool → Bool → List Node → Nat × Bool × Bool
+  | after, brk, [] => (0, after, brk)
+  | after, brk, n :: ns =>
+    match n with
+    | .tag i ks =>
+      let r := growL p ctx false false ns
+      (owed after brk + growN p ctx (.tag i ks) + r.1, r.2)
+    | .str c s =>
+      match strKind c s with
+      | .text t =>
+        if t.isEmpty then growL p ctx after brk ns else growL p ctx after (brkText p after brk t) ns
+      | .special _ _ nl =>
+        let r := growL p ctx nl (nl && ctx.pres) ns
+        (owed after brk + r.1, r.2)
+end
+
+/-- the total growth of a closed forest -/
+def grow (p : PCfg) (ctx : Ctx) (ds : List Node) : Nat :=
+  let r := growL p ctx false false ds
+  r.1 + owed r.2.1 r.2.2
+
 
 end BS.Render
